@@ -17,9 +17,7 @@ import (
 // + 0xFF stuffing". The expected output is built by the reference (ref.FilterPMT on the logical
 // section, ref.PMTBytes for its bytes); gots sees packets only.
 //
-// Not asserted: whether packets are returned when the request holds the PAT/PMT PID next to PIDs
-// that are all absent (the statement does not say whether an ignored PID counts as "present"; the
-// error is still required); how many packets are returned beyond the ones needed to hold the
+// Not asserted: how many packets are returned beyond the ones needed to hold the
 // filtered section (trailing packets may be dropped or kept as pure 0xFF padding - the statement
 // only fixes the concatenated payload); that the returned packets are fresh memory.
 
@@ -198,7 +196,11 @@ func c14Judge(res *engine.Result, carrier string, orig [][188]byte, caps []int, 
 		}
 		return
 	case "PAT/PMT-PID-plus-only-absent-PIDs":
-		res.Event("request of PAT/PMT PID plus only absent PIDs (packets not asserted)")
+		// the PAT and PMT PIDs are ignored: of the PIDs that count none is in the PMT (and neither is the
+		// ignored one), so this is the "none are" case of the error contract
+		if len(out) != 0 {
+			res.Failf(sig("packets-returned"), "request %v: %d packets returned although none of the PIDs that count (the PAT / PMT PID is ignored) is in the PMT", rq.pids, len(out))
+		}
 		return
 	}
 	// packets
